@@ -51,6 +51,15 @@ var c19Floats = map[string][]string{
 	"float-subnormal":     {"4.9e-324", "2.2250738585072011e-308", "1e-320", "2.4703282292062327e-324", "1e-400", "-0e-999", "0.0000000000000000000000000000000000000000000000000000000000000000000000000000000000000000000000000000000000000000000000000000000000000000000000000000000000000000000000000000000000000000000000000000000000000000000000000000000000000000000000000000000000000000000000000000000000000000000000000000000000000000000000000000000000001"},
 }
 
+func init() {
+	z := strings.Repeat("0", 850)
+	c19Floats["float-halfway"] = append(c19Floats["float-halfway"],
+		"0."+z+"17976931348623157", // > 800 bytes of text, 19+ leading zeros: multiprecision fallback
+		"9007199254740993"+z+"e-850",
+		"1"+strings.Repeat("0", 400)+"."+strings.Repeat("0", 450)+"1e-400")
+	c19Floats["float-subnormal"] = append(c19Floats["float-subnormal"], "0."+strings.Repeat("0", 320)+strings.Repeat("123456789", 60))
+}
+
 var c19Ints = map[string][]string{
 	"int-18": {"123456789012345678", "999999999999999999", "100000000000000000"},
 	"int-19": {"1234567890123456789", "9223372036854775807", "1000000000000000000"},
